@@ -109,6 +109,12 @@ func ptrConverter(dec *Decoder, o interface{}, p interface{}) {
 	}
 	if converter := GetConverter(reflect.TypeOf(o), t); converter != nil {
 		converter(dec, o, t2.PackEFace(*ptr))
+	} else if dec.Error == nil {
+		// nothing converts o into a t: say so instead of leaving a zero value behind
+		dec.Error = CastError{
+			Source:      reflect.TypeOf(o),
+			Destination: t,
+		}
 	}
 }
 
